@@ -27,11 +27,13 @@ def resolve(nodes, i):
     return i
 
 
-def gen_world(r, nmax=10, constraints=False, files=False, bins=True, plats=True, nocache=False, dupdeps=True):
+def gen_world(r, nmax=10, constraints=False, files=False, bins=True, plats=True, nocache=False, dupdeps=True, spell=False):
     """Random DAG in topological numbering (dependencies have smaller indices); labels are
     drawn at random, so neither alphabetical nor map order is related to the numbering.
     constraints=True: satisfy analysis.CheckTargetConstraints (a non-test target never depends,
-    through aliases, on a test target) so that `grog build` accepts the workspace."""
+    through aliases, on a test target) so that `grog build` accepts the workspace.
+    spell=True: a node also carries "spelled", the spelling of each of its inputs in the BUILD file (two in three
+    non-canonical: ./f, zz/../f, d//f, d/./f); "inputs" stays the canonical form the Python references use."""
     n = 1 + r.below(nmax)
     labels = r.sample([(p, nm) for p in PKGS for nm in NAMES], n)
     nodes = []
@@ -55,6 +57,8 @@ def gen_world(r, nmax=10, constraints=False, files=False, bins=True, plats=True,
         node = {"kind": "t", "pkg": pkg, "name": name, "tags": tags,
                 "plats": list(r.choice(PLATS)) if plats else [], "bin": bool(bins and r.chance(1, 5)),
                 "deps": deps, "inputs": [f for f in FILES if r.chance(1, 3)] if files else []}
+        if spell:
+            node["spelled"] = [respell(r.below(5), f) if r.chance(2, 3) else f for f in node["inputs"]]
         nodes.append(node)
     return nodes
 
@@ -114,12 +118,18 @@ def dot(xs):
     return ".".join(xs)
 
 
+def spelled_inputs(nd):
+    """the inputs as written in the BUILD file = as target.Inputs holds them = as the model receives them"""
+    sp = nd.get("spelled")
+    return sp if sp is not None else nd["inputs"]
+
+
 def enc_nodes(nodes):
     out = []
     for nd in nodes:
         out.append(":".join([nd["kind"], hx(nd["pkg"]), hx(nd["name"]), dot(hx(t) for t in nd["tags"]),
                              dot(hx(p) for p in nd["plats"]), "1" if nd["bin"] else "0",
-                             dot(str(d) for d in nd["deps"]), dot(hx(f) for f in nd["inputs"])]))
+                             dot(str(d) for d in nd["deps"]), dot(hx(f) for f in spelled_inputs(nd))]))
     return ",".join(out)
 
 
@@ -266,10 +276,25 @@ def respell(k, f):
     return forms[k % len(forms)]
 
 
-def render_workspace(nodes, ws, trace=None, r=None, file_contents=None, spell=None):
-    """One BUILD.json per package; every command appends its label to the trace file.  spell (an Rng): literal inputs are written
-    to the BUILD file in a non-canonical spelling (./f, zz/../f, d//f, d/./f) two times in three -- the RESOLVED inputs, which is what
-    the nodes carry and what the model and the references see, are unchanged."""
+def respell_arg(k, a):
+    """a non-canonical spelling of the command line path a (relative to the current directory) naming the same file: ./a, a doubled
+    slash, a detour through a directory that does not exist (filepath.Abs is lexical), a "." element"""
+    d, _, b = a.rpartition("/")
+    forms = ["./" + a, (d + "//" + b) if d else (".//" + a), (d + "/x/../" + b) if d else ("x/../" + a),
+             (d + "/./" + b) if d else ("././" + a), a]
+    return forms[k % len(forms)]
+
+
+def stays_inside(p):
+    """Select.stays_inside: relative and Clean leaves no leading '..' (the guard of C20_owners_abs_is_owners_partial)"""
+    n = os.path.normpath(p) if p else "."
+    return not p.startswith("/") and n != ".." and not n.startswith("../")
+
+
+def render_workspace(nodes, ws, trace=None, r=None, file_contents=None):
+    """One BUILD.json per package; every command appends its label to the trace file.  Literal inputs are written exactly as the node
+    spells them (nd["spelled"], default nd["inputs"]): the same strings the model line carries (enc_nodes); the files are created at
+    the canonical paths nd["inputs"], which is what the Python references and the rebuild prediction use."""
     by_pkg = {}
     for nd in nodes:
         by_pkg.setdefault(nd["pkg"], []).append(nd)
@@ -296,7 +321,7 @@ def render_workspace(nodes, ws, trace=None, r=None, file_contents=None, spell=No
             if nd["bin"]:
                 t["bin_output"] = "bin_%s" % nd["name"]
             if nd["inputs"]:
-                t["inputs"] = [respell(spell.below(5), i) if (spell is not None and spell.chance(2, 3)) else i for i in nd["inputs"]]
+                t["inputs"] = list(spelled_inputs(nd))
             targets.append(t)
         with open(os.path.join(ws, pkg, "BUILD.json"), "w") as f:
             json.dump({"targets": targets, "aliases": aliases}, f, indent=1)
